@@ -300,12 +300,17 @@ pub fn run_c03(a: &Args) {
         if let Some((default, tables)) = &sc.real_localization {
             use passage_adapters::localization::LocalizationAdapter;
             let adapter = std::sync::Arc::new(passage_adapters::FixedLocalizationAdapter::new(default.clone(), tables.iter().cloned().map(|(l, kv)| (l, kv.into_iter().collect())).collect()));
+            // … and the same tables as a configuration value through the application's factory and wrapper
+            let app_cfg = passage::config::LocalizationAdapter::Fixed(passage::config::FixedLocalization { default_locale: default.clone(), messages: tables.iter().cloned().map(|(l, kv)| (l, kv.into_iter().collect())).collect() });
+            let app_adapter = std::thread::spawn(move || { let rt = tokio::runtime::Builder::new_current_thread().build().unwrap(); rt.block_on(passage::adapter::localization::DynLocalizationAdapter::from_config(app_cfg)).ok() }).join().ok().flatten().map(std::sync::Arc::new);
             let ttok = if tables.is_empty() { "-".to_string() } else { tables.iter().map(|(l, kv)| format!("{}={}", hex(l.as_bytes()), kv.iter().map(|(k, v)| format!("{}:{}", hex(k.as_bytes()), hex(v.as_bytes()))).collect::<Vec<_>>().join(","))).collect::<Vec<_>>().join(";") };
             let other = rng.pick(&["de_DE", "a_b_c", "é_FR", "日本_JP", "_x", "x_", "a__b", "", "zz"]).to_string();
             for (loc, key) in [(Some(plan.locale.clone()), "disconnect_no_target"), (Some(other), "disconnect_timeout"), (None, "disconnect_no_target"), (Some(plan.locale.clone()), "no_such_key")] {
-                let (ad, l2, k2) = (adapter.clone(), loc.clone(), key.to_string());
+                let (ad, ad2, l2, k2) = (adapter.clone(), app_adapter.clone(), loc.clone(), key.to_string());
+                let via_app = key == "disconnect_timeout" || key == "no_such_key";
                 // on its own thread: a panic in the adapter is an observation, not the end of the runner
-                let got = std::thread::spawn(move || { let rt = tokio::runtime::Builder::new_current_thread().build().unwrap(); rt.block_on(ad.localize(l2.as_deref(), &k2, &[])) }).join();
+                let got = std::thread::spawn(move || { let rt = tokio::runtime::Builder::new_current_thread().build().unwrap();
+                    match (via_app, ad2) { (true, Some(a)) => rt.block_on(a.localize(l2.as_deref(), &k2, &[])), _ => rt.block_on(ad.localize(l2.as_deref(), &k2, &[])) } }).join();
                 let (observed, oracle) = match got { Ok(Ok(s)) => (hex(s.as_bytes()), None), Ok(Err(e)) => (format!("err:{e}"), Some(format!("built-in localisation failed for locale {loc:?}: {e}"))), Err(_) => ("panic".to_string(), Some(format!("built-in localisation panicked for locale {loc:?}"))) };
                 cases.push(Case { request: format!("c03.loc {} {} {} {ttok}", hex(default.as_bytes()), loc.as_ref().map_or("-".to_string(), |l| hex(l.as_bytes())), hex(key.as_bytes())), observed, oracle, class: "builtin-localisation".into() });
             }
